@@ -22,7 +22,8 @@ RULE = ("Three generated families judged by this property's own oracle. (a) ever
         "'already in progress'. evaluations = controlled / faulted executions. Non-trivial = some thread actually "
         "waited on a condition or lock, or a fault was injected while an identifier was locked; distinct key = "
         "(family, program, schedule or fault site)."
-        ' Further families: wake chain (a call that waits for one identifier while holding another, a second waiter, an unrelated release) for the document, pid and cid locks; fault mode "late" (the k-th rename / replace takes effect and then reports EIO).')
+        ' Further families: wake chain (a call that waits for one identifier while holding another, a second waiter, an unrelated release) for the document, pid and cid locks; fault mode "late" (the k-th rename / replace takes effect and then reports EIO).'
+        ' Round 9: an execution that passes 30 000 scheduling points without completing is a verdict (a call that spins for ever; time.sleep of the code under test is a scheduling point, not a wait); family nested cids: tag_object with cids that are no digests and are shard-path prefixes of one another (the second call cannot succeed and must still return, leave nothing locked, and the follow-ups must complete).')
 EXHAUSTIVE_NOTE = "families (a) and (c) enumerate completely within each program / scenario; (b) enumerates hold points"
 ASSUMPTIONS = ["'every call returns' is decided as: no explored execution ends with a blocked thread (safety over owned "
                "schedules); starvation under unbounded unfair schedules is out of reach",
